@@ -1,5 +1,21 @@
 (* C05 model driver: runs the extracted Gallina model (C05model) on a case file read from stdin
-   and prints one canonical line per input line.  The C driver drv.c prints the same format. *)
+   and prints one canonical line per input line.  The C driver drv.c prints the same format:
+
+     dlist   L|ok <i>:<next>,<prev> ... w=<c>:<fwd>/<bwd> acc=ok          | fault | dead
+             w = l_each_next / l_each_prev (AccDefs.v: what the a_list_foreach macros visit) from
+             ctx = node c (first argument of the operation, node 1 in the header, "w=-" without nodes),
+             BROKEN when the walk does not come back to c
+     slist   S|ok 1:<next>,<tail> 2:<next>,<tail> <i>:<next> ... w=<l1>/<l2> acc=ok
+             w = s_each (what a_slist_foreach visits) on list 1 / list 2, BROKEN when endless
+     queue   Q|r=<result> A:n=,z=,m=,f=[..],b=[..],p=[..],e=<F>/<K> B:... v=[..] t=[..] acc=ok
+             e = q_ends (AccDefs.v): q_fore_ / q_back_ (a_que_fore_ / a_que_back_) where the ring is
+             not empty, '-' otherwise
+   acc: the C driver compares every accessor, alias and iteration macro with the fields after every
+   line and prints "ok" or "BAD:..."; the model has nothing to compare and prints the constant "ok"
+   (what the accessors return on the model is AccProofs.v).
+   Operations beyond the histories of the C05 theorems: dlist ctor / dtor (lx_step), slist init /
+   dtor / link (sx_step); queue reset is q_reset for both objects (B: a_que_die + a_que_new =
+   q_die_new = q_reset). *)
 open C05model
 
 let rec pos_of_int i = if i <= 1 then XH else if i land 1 = 0 then XO (pos_of_int (i lsr 1)) else XI (pos_of_int (i lsr 1))
@@ -35,13 +51,22 @@ type st =
   | Q of qworld
   | Nothing
 
-let dump_l n h =
+let seq = function Some l -> ids l | None -> "BROKEN"
+
+let dump_l n h c =
   let b = Buffer.create 64 in
   for i = 1 to n do
     (match dget h (n_of_int i) with
      | Some d -> Buffer.add_string b (Printf.sprintf " %d:%d,%d" i (int_of_n d.nxt) (int_of_n d.prv))
      | None -> Buffer.add_string b (Printf.sprintf " %d:?" i))
   done;
+  (if c < 1 || c > n then Buffer.add_string b " w=-"
+   else
+     (* a ring holds at most n-1 other nodes: fuel n decides exactly whether the walk comes back *)
+     Buffer.add_string b
+       (Printf.sprintf " w=%d:%s/%s" c (seq (l_each_next h (n_of_int c) (nat_of_int n)))
+          (seq (l_each_prev h (n_of_int c) (nat_of_int n)))));
+  Buffer.add_string b " acc=ok";
   Buffer.contents b
 
 let dump_s n w =
@@ -53,6 +78,10 @@ let dump_s n w =
   for i = 3 to n + 2 do
     Buffer.add_string b (Printf.sprintf " %d:%s" i (g (s_rd w (n_of_int i))))
   done;
+  (* at most n+2 distinct nodes (both heads included) can be met before NULL: fuel n+3 is exact *)
+  Buffer.add_string b
+    (Printf.sprintf " w=%s/%s acc=ok" (seq (s_each w (n_of_int 1) (nat_of_int (n + 3))))
+       (seq (s_each w (n_of_int 2) (nat_of_int (n + 3)))));
   Buffer.contents b
 
 let dump_q (w : qworld) =
@@ -64,9 +93,11 @@ let dump_q (w : qworld) =
       let f = ring_of w.w_h (qaddr s) fuel and bk = ring_of_back w.w_h (qaddr s) fuel in
       let sh = function Some l -> ids l | None -> "BROKEN" in
       (match f with Some l -> vals := !vals @ l | None -> ());
+      let e = function Some x -> string_of_int (int_of_n x) | None -> "-" in
+      let ends = match q_ends w s with Ok (fo, ba) -> e fo ^ "/" ^ e ba | _ -> "?/?" in
       Buffer.add_string b
-        (Printf.sprintf " %s:n=%d,z=%d,m=%d,f=%s,b=%s,p=%s" (if s then "B" else "A")
-           (int_of_n q.q_num) (int_of_n q.q_siz) (int_of_n q.q_mem) (sh f) (sh bk) (ids q.q_pool)))
+        (Printf.sprintf " %s:n=%d,z=%d,m=%d,f=%s,b=%s,p=%s,e=%s" (if s then "B" else "A")
+           (int_of_n q.q_num) (int_of_n q.q_siz) (int_of_n q.q_mem) (sh f) (sh bk) (ids q.q_pool) ends))
     [false; true];
   Buffer.add_string b " v=[";
   Buffer.add_string b
@@ -80,7 +111,7 @@ let dump_q (w : qworld) =
             | RNode (sz, ok) -> Printf.sprintf "N%d:%d" (int_of_n sz) (if ok then 1 else 0)
             | RPool (sz, ok) -> Printf.sprintf "P%d:%d" (int_of_n sz) (if ok then 1 else 0)
             | RResize (sz, ok) -> Printf.sprintf "R%d:%d" (int_of_n sz) (if ok then 1 else 0)) w.w_trace));
-  Buffer.add_string b "]";
+  Buffer.add_string b "] acc=ok";
   Buffer.contents b
 
 let parse_lop op (a : n list) =
@@ -106,6 +137,12 @@ let parse_lop op (a : n list) =
   | "swap_node", [ a; b ] -> LSwapNode (a, b)
   | _ -> failwith ("bad dlist op " ^ op)
 
+let parse_lxop op (a : n list) =
+  match op, a with
+  | "ctor", [ c ] -> LCtor c
+  | "dtor", [ c ] -> LDtor c
+  | _ -> LOp (parse_lop op a)
+
 let parse_sop op (a : n list) =
   match op, a with
   | "ctor", [ l ] -> SCtor l
@@ -117,6 +154,13 @@ let parse_sop op (a : n list) =
   | "mov", [ l; t; a ] -> SMov (l, t, a)
   | "rot", [ l ] -> SRot l
   | _ -> failwith ("bad slist op " ^ op)
+
+let parse_sxop op (a : n list) =
+  match op, a with
+  | "init", [ l ] -> SInit l
+  | "dtor", [ l ] -> SDtor l
+  | "link", [ a; b ] -> SLink (a, b)
+  | _ -> SOp (parse_sop op a)
 
 let sel s = (s = "1" || s = "B")
 let flag s = (s = "1")
@@ -159,7 +203,7 @@ let () =
             let n = int_of_string n in
             let h = l_world (nat_of_int n) in
             st := L (n, h);
-            Buffer.add_string out ("L" ^ dump_l n h ^ "\n")
+            Buffer.add_string out ("L" ^ dump_l n h 1 ^ "\n")
         | [ "S"; n ] ->
             let n = int_of_string n in
             let w = s_world (nat_of_int n) in
@@ -172,11 +216,14 @@ let () =
             match !st with
             | Dead | Nothing -> Buffer.add_string out "dead\n"
             | L (n, h) -> (
-                match l_step h (parse_lop op (List.map ni args)) with
-                | Some h' -> st := L (n, h'); Buffer.add_string out ("ok" ^ dump_l n h' ^ "\n")
+                let c = match args with a :: _ -> int_of_string a | [] -> 0 in
+                match lx_step h (parse_lxop op (List.map ni args)) with
+                | Some h' -> st := L (n, h'); Buffer.add_string out ("ok" ^ dump_l n h' c ^ "\n")
                 | None -> st := Dead; Buffer.add_string out "fault\n")
             | S (n, w) -> (
-                match s_step w (parse_sop op (List.map ni args)) with
+                (* the C driver rejects a link target outside 1..n+2 before it calls a_slist_link *)
+                let in_range = List.for_all (fun a -> let i = int_of_string a in i >= 1 && i <= n + 2) args in
+                match (if in_range then sx_step w (parse_sxop op (List.map ni args)) else None) with
                 | Some w' -> st := S (n, w'); Buffer.add_string out ("ok" ^ dump_s n w' ^ "\n")
                 | None -> st := Dead; Buffer.add_string out "fault\n")
             | Q w -> (
